@@ -86,7 +86,11 @@ func classifyStd(fn *ssa.Function) stdInfo {
 		switch {
 		case strings.HasPrefix(fnName, "Sort"), fnName == "Reverse":
 			return stdInfo{Class: stdMutatesArg, MutArg: 0, CallsArg: -1}
-		case fnName == "Compact", fnName == "CompactFunc", fnName == "Delete", fnName == "DeleteFunc", fnName == "Insert", fnName == "Replace", fnName == "Grow", fnName == "Clip":
+		case fnName == "Grow":
+			// reserves capacity, leaves the elements alone; panics only for a negative count, which engine-2 is
+			// given as a bounds obligation at the call
+			return stdInfo{Class: stdPure, MutArg: -1, CallsArg: -1, NoPanic: true}
+		case fnName == "Compact", fnName == "CompactFunc", fnName == "Delete", fnName == "DeleteFunc", fnName == "Insert", fnName == "Replace", fnName == "Clip":
 			return stdInfo{Class: stdMutatesArg, MutArg: 0, CallsArg: -1}
 		case fnName == "Contains", fnName == "ContainsFunc", fnName == "Index", fnName == "IndexFunc", fnName == "Equal", fnName == "EqualFunc",
 			fnName == "BinarySearch", fnName == "BinarySearchFunc", fnName == "IsSorted", fnName == "IsSortedFunc", fnName == "Compare", fnName == "CompareFunc":
